@@ -8080,9 +8080,7 @@ fn compare_wire_values(a: Option<&WireValue>, b: Option<&WireValue>) -> std::cmp
         (Some(va), Some(vb)) => match (va, vb) {
             (WireValue::Int64(a), WireValue::Int64(b)) => a.cmp(b),
             (WireValue::Int32(a), WireValue::Int32(b)) => a.cmp(b),
-            (WireValue::Float64(a), WireValue::Float64(b)) => {
-                a.partial_cmp(b).unwrap_or(std::cmp::Ordering::Equal)
-            }
+            (WireValue::Float64(a), WireValue::Float64(b)) => compare_f64(*a, *b),
             (WireValue::String(a), WireValue::String(b)) => a.cmp(b),
             (WireValue::Bool(a), WireValue::Bool(b)) => a.cmp(b),
             (WireValue::Timestamp(a), WireValue::Timestamp(b)) => a.cmp(b),
@@ -8090,12 +8088,8 @@ fn compare_wire_values(a: Option<&WireValue>, b: Option<&WireValue>) -> std::cmp
             (WireValue::Null, _) => std::cmp::Ordering::Less,
             (_, WireValue::Null) => std::cmp::Ordering::Greater,
             // Cross-type numeric comparison
-            (WireValue::Int64(a), WireValue::Float64(b)) => (*a as f64)
-                .partial_cmp(b)
-                .unwrap_or(std::cmp::Ordering::Equal),
-            (WireValue::Float64(a), WireValue::Int64(b)) => a
-                .partial_cmp(&(*b as f64))
-                .unwrap_or(std::cmp::Ordering::Equal),
+            (WireValue::Int64(a), WireValue::Float64(b)) => compare_i64_f64(*a, *b),
+            (WireValue::Float64(a), WireValue::Int64(b)) => compare_i64_f64(*b, *a).reverse(),
             // Cross-type: use type discriminant for stable ordering
             _ => wire_value_type_rank(va).cmp(&wire_value_type_rank(vb)),
         },
@@ -8125,6 +8119,31 @@ pub mod verif_order {
 
     pub fn wire_value_type_rank(v: &WireValue) -> u8 {
         super::wire_value_type_rank(v)
+    }
+}
+
+/// Total preorder on floats for sorting: numeric order, NaN after every number
+/// (all NaNs tie, `-0.0` ties with `0.0`). `partial_cmp(..).unwrap_or(Equal)` is not
+/// transitive once a NaN is present, which `sort_by` requires.
+fn compare_f64(a: f64, b: f64) -> std::cmp::Ordering {
+    match (a.is_nan(), b.is_nan()) {
+        (true, true) => std::cmp::Ordering::Equal,
+        (true, false) => std::cmp::Ordering::Greater,
+        (false, true) => std::cmp::Ordering::Less,
+        (false, false) => a.partial_cmp(&b).unwrap_or(std::cmp::Ordering::Equal),
+    }
+}
+
+/// Exact comparison of an integer with a float (NaN after every number).
+/// `a as f64` rounds beyond 2^53, so a tie after rounding is broken on the integers:
+/// the float then equals the rounded integer, hence is integral and fits in `i128`.
+fn compare_i64_f64(a: i64, b: f64) -> std::cmp::Ordering {
+    if b.is_nan() {
+        return std::cmp::Ordering::Less;
+    }
+    match (a as f64).partial_cmp(&b) {
+        Some(std::cmp::Ordering::Equal) | None => i128::from(a).cmp(&(b as i128)),
+        Some(ord) => ord,
     }
 }
 
